@@ -450,6 +450,7 @@ func directedC07() []directedCase {
 		{"shell-after-expiry", []grant{sh}, []step{{Op: "clock", Dur: 2 * h}, {Op: "exec", Cmd: "", Pty: true}}},
 		{"wire-grant-before-start", []grant{{User: "alice", Key: 0, Type: byte(authgrants.Command), Cmd: "true", Start: h, Exp: 2 * h, Via: "wire"}}, []step{{Op: "exec", Cmd: "true"}}},
 		{"long-command-and-its-extensions", []grant{cmdGrant(long255, -h, h)}, []step{{Op: "exec", Cmd: long255 + "y"}, {Op: "exec", Cmd: long255 + "\necho appended"}, {Op: "exec", Cmd: long255[:254]}, {Op: "exec", Cmd: long255}}},
+		{"grant-from-the-far-future", []grant{cmdGrant("true", 290 * 365 * 24 * h, 291 * 365 * 24 * h)}, []step{{Op: "exec", Cmd: "true"}}},
 		{"other-tubes", []grant{cmdGrant("true", -h, h)}, []step{{Op: "tube", TubeT: 7}, {Op: "tube", TubeT: 99}, {Op: "tube", TubeT: 3}, {Op: "exec", Cmd: "true"}}},
 	}
 }
@@ -670,6 +671,17 @@ func runGrantHistory(r *vh.Runner, c *vh.Case, rng *vh.Rand, gs []grant, steps [
 				}
 			} else {
 				r.Count("requests_refused", 1)
+				// a refused forward leaves nothing behind: a data tube opened
+				// now reaches nobody
+				cl.pfData()
+				time.Sleep(30 * time.Millisecond)
+				if after := p.accepted.Load(); after > dials {
+					tr("#%d data tube after the refused forward: the server dialled the refused address", si)
+					if !judge(action{"pf-local", "", false, now()}) {
+						p.close()
+						return
+					}
+				}
 			}
 			p.close()
 		case "pf-data":
